@@ -102,6 +102,18 @@ impl<TNodeId, TVal: Eq> PendingNode<TNodeId, TVal> {
     pub fn set_ready_at(&mut self, t: Instant) {
         self.replace = t;
     }
+
+    /// Verification hook: the key of the pending node.
+    #[cfg(discv5_verif)]
+    pub fn verif_key(&self) -> &Key<TNodeId> {
+        &self.node.key
+    }
+
+    /// Verification hook: the instant at which the pending node becomes eligible.
+    #[cfg(discv5_verif)]
+    pub fn verif_ready_at(&self) -> Instant {
+        self.replace
+    }
 }
 
 /// A `Node` in a bucket, representing a peer participating
